@@ -353,6 +353,20 @@ def r5(ctx: Ctx) -> None:
     ok = any(call_name(c) == 'csv_to_merchants_content' for c in ast.walk(mg.node) if isinstance(c, ast.Call)) and \
         any(call_name(c) == 'load_merchant_rules' for c in ast.walk(mg.node) if isinstance(c, ast.Call))
     ctx.check(ok, 'C14.R5', mg, 'consumer:migration', 'migration writes csv_to_merchants_content(load_merchant_rules(csv))', 'migration does not convert the loaded CSV rules')
+    # … and converts *all* of them: the converter's argument is the loader's result itself, not a list rebuilt (filtered, de-duplicated, sorted) from it
+    mfl = get_flow(proj, mg)
+    for c in mfl.calls('csv_to_merchants_content'):
+        a0 = c.args[0] if c.args else None
+        direct = False
+        if isinstance(a0, ast.Call) and call_name(a0) == 'load_merchant_rules':
+            direct = True
+        elif isinstance(a0, ast.Name):
+            defs = mfl.cfg.defs_reaching(mfl.stmt_of(c), a0.id)
+            direct = bool(defs) and all(d != 'param' and isinstance(mfl.cfg.stmt[d], ast.Assign) and isinstance(mfl.cfg.stmt[d].value, ast.Call)
+                                        and call_name(mfl.cfg.stmt[d].value) == 'load_merchant_rules' for d in defs)
+        ctx.check(direct, 'C14.R5', mg, 'consumer:all-rows', 'every loaded CSV rule is handed to the converter',
+                  f'csv_to_merchants_content receives {src(a0) if a0 is not None else None!r}, a list rebuilt from the loaded rules: rows can be dropped or reordered before conversion '
+                  f'(rows that differ only in modifiers or tags look like duplicates), so the migrated file classifies differently', c)
     le = proj.func('merchant_engine.load_csv_as_engine')
     ok = any(call_name(c) == 'csv_to_rules' for c in ast.walk(le.node) if isinstance(c, ast.Call))
     ctx.check(ok, 'C14.R5', le, 'consumer:engine', 'load_csv_as_engine converts through csv_to_rules', 'load_csv_as_engine does not use the converter')
